@@ -1,5 +1,6 @@
 import IofloModel.Model.Containers
 import IofloModel.Model.OsetLinks
+import IofloModel.Model.ModictLists
 import IofloModel.Drv.Proto
 /-!
 driver for the container models (keys: strings without ` `, `,`, `=`; values: integers)
@@ -8,6 +9,8 @@ driver for the container models (keys: strings without ` `, `,`, `=`; values: in
   d <op> …      odict / lodict heap       → <out> | <dump of every odict/lodict>
   m <op> …      modict heap               → <out> | <dump of every modict>
   s <op> …      oset heap                 → <out> | <dump of every oset>
+  l <op> …      modict heap, value lists as objects (Model/ModictLists.lean): new / set / append / replace / del / clear /
+                update / updatefrom / copy / newfrom / pickle
   p <op> …      oset heap, cell-level model (sentinel, cells, map): new / add / discard / pop / has / len / iter / rev
 
 lists: `-` = empty, else comma separated; pairs `k=v`; `~` = argument not given / None.
@@ -23,6 +26,8 @@ structure St where
   mh : List (OD K (List V)) := []
   sh : List (List K) := []
   ph : List (Links.LL K) := []
+  lh : MLists.MH K V := MLists.empty   -- modicts with their value lists as objects
+  low : List (K × K) := []      -- `str.lower` on the keys of the case, as sent by `lowtab` (else ASCII lower)
 
 /-! ### parsing -/
 def commaList (s : String) : List String := if s == "-" then [] else s.splitOn ","
@@ -131,11 +136,64 @@ def dHOp? : List String → Option (HOp K V)
   | ["eq", i, j] => do let i ← i.toNat?; let j ← j.toNat?; some (.eq i j)
   | ws => (dOp? ws).map (fun p => .call p.1 p.2)
 
+/-! ### modict requests on the list-object model (who creates which list, who appends to which) -/
+def dumpL (h : MLists.MH K V) : String :=
+  " ".intercalate ((List.range h.objs.length).map (fun i =>
+    "mod{" ++ fmtListPairs (MLists.listitems h i) ++ "}#" ++ toString ((h.objs[i]?).map List.length |>.getD 0)))
+
+def lStep (st : St) (ws : List String) : St × String :=
+  let h := st.lh
+  let ok (h' : MLists.MH K V) (out : String) : St × String := ({ st with lh := h' }, out ++ " | " ++ dumpL h')
+  let has (i : Nat) (k : K) : Bool := match h.objs[i]? with | some o => dhas o k | none => false
+  match ws with
+  | ["new", ps] => match pairs? ps with
+    | some ps => ok (MLists.new h ps) ("ref " ++ toString h.objs.length)
+    | none => (st, "bad-op")
+  | [op, i, k, v] =>
+    match i.toNat?, v.toInt? with
+    | some i, some v =>
+      if i < h.objs.length && okKey k then
+        if op == "set" || op == "append" then ok (MLists.append h i k v) "None"
+        else if op == "replace" then ok (MLists.replace h i k v) "None"
+        else (st, "bad-op")
+      else (st, "bad-op")
+    | _, _ => (st, "bad-op")
+  | ["del", i, k] =>
+    match i.toNat? with
+    | some i => if i < h.objs.length && okKey k then
+        (if has i k then ok (MLists.remove h i k) "None" else ok h "ERR KeyError") else (st, "bad-op")
+    | none => (st, "bad-op")
+  | ["clear", i] =>
+    match i.toNat? with
+    | some i => if i < h.objs.length then ok (MLists.clear h i) "None" else (st, "bad-op")
+    | none => (st, "bad-op")
+  | ["update", i, ps] =>
+    match i.toNat?, pairs? ps with
+    | some i, some ps => if i < h.objs.length then ok (MLists.update h i ps) "None" else (st, "bad-op")
+    | _, _ => (st, "bad-op")
+  | ["updatefrom", i, j] =>
+    match i.toNat?, j.toNat? with
+    | some i, some j => if i < h.objs.length && j < h.objs.length && i != j then ok (MLists.updateFrom h i j) "None"
+                        else (st, "bad-op")
+    | _, _ => (st, "bad-op")
+  | [op, j] =>
+    match j.toNat? with
+    | some j => if j < h.objs.length && (op == "copy" || op == "newfrom" || op == "pickle") then
+        ok (MLists.copy h j) ("ref " ++ toString h.objs.length) else (st, "bad-op")
+    | none => (st, "bad-op")
+  | _ => (st, "bad-op")
+
+/-- `key.lower()`: the table of the case if it has the key (non-ASCII keys: the real `str.lower` of the run), else ASCII -/
+def lowerOf (tab : List (K × K)) (k : K) : K :=
+  match tab.lookup k with
+  | some v => v
+  | none => lowerStr k
+
 def dStep (st : St) (ws : List String) : St × String :=
   match dHOp? ws with
   | none => (st, "bad-op")
   | some op =>
-    match Heap.step lowerStr st.dh op with
+    match Heap.step (lowerOf st.low) st.dh op with
     | (_, .bad) => (st, "bad-op")
     | (h, .ref n) => ({ st with dh := h }, "ref " ++ toString n ++ " | " ++ dumpD h)
     | (h, .out o) => ({ st with dh := h }, fmtOut o ++ " | " ++ dumpD h)
@@ -321,10 +379,17 @@ def pStep (st : St) (ws : List String) : St × String :=
 def step (st : St) (line : String) : St × String :=
   match words line with
   | ["reset"] => ({}, "ok")
+  | ["lowtab", t] =>
+    match (commaList t).mapM (fun p => match p.splitOn "=" with
+        | [a, b] => if okKey a && okKey b then some (a, b) else none
+        | _ => none) with
+    | some tab => ({ st with low := tab }, "ok")
+    | none => (st, "bad-op")
   | "d" :: ws => dStep st ws
   | "m" :: ws => mStep st ws
   | "s" :: ws => sStep st ws
   | "p" :: ws => pStep st ws
+  | "l" :: ws => lStep st ws
   | _ => (st, "bad-op")
 
 end Ioflo.Drv.Containers
